@@ -170,14 +170,29 @@ def windColumns (bs : List Box) (tris : List (P3 × P3 × P3)) (cx cy cz : List 
               | none => none
               | some w => some (ok && (w == (if member bs (px, py, pz) then 1 else 0)))) (some ok)) acc) (some true)
 
-def judge (bs : List Box) (tris : List (P3 × P3 × P3)) (onGrid : Bool) : Verdict :=
-  let sx := splits bs 0; let sy := splits bs 1; let sz := splits bs 2
+/-- The judgement against the point set `member bs` with an explicit grid `sx sy sz`.  The grid must contain the
+coordinate of every plane in which the boundary of the set has a face, and must be contained in the split lists of
+the real `RectSet` (so that its thinnest gap bounds the real one from above): for a set built with `Add` /
+`AddRectSet` only that is every box coordinate (`judge`); for histories with removals it is the list of ESSENTIAL
+planes (`essentialSplits`). -/
+def judgeWith (bs : List Box) (sx sy sz : List Rat) (tris : List (P3 × P3 × P3)) (onGrid : Bool)
+    (minStep : Option Rat := none) : Verdict :=
   let gx := gapsOf sx; let gy := gapsOf sy; let gz := gapsOf sz
   let ext : Rat := (gx.foldl (· + ·) 0) + (gy.foldl (· + ·) 0) + (gz.foldl (· + ·) 0)
   let big : Rat := if ext == 0 then 1 else ext
   let mingap := minList big (gx ++ gy ++ gz)
   let cx := cellsOf (padded sx big); let cy := cellsOf (padded sy big); let cz := cellsOf (padded sz big)
-  let tri := tris.all (triOutward bs (mingap / 4))
+  -- per-triangle probe: a quarter of the thinnest gap of the REAL split lists.  When the grid handed in may be
+  -- coarser than the real one (`minStep = some m`, `m` ≤ a quarter of the thinnest real gap) the real gap is only
+  -- known to lie between `4·m` and `mingap`, and the probe lengths `mingap/4, mingap/8, …` down to `m/2` are tried:
+  -- one of them is within a factor 2 of the right one; an inward-facing triangle fails them all (they are all
+  -- shorter than the thinnest feature of the set).
+  let steps : List Rat := match minStep with
+    | none => [mingap / 4]
+    | some m => (List.range 200).filterMap fun k =>
+        let st := mingap / 4 / ((2 : Rat) ^ k)
+        if k == 0 || m / 2 ≤ st then some st else none
+  let tri := tris.all fun t => steps.any fun st => triOutward bs st t
   -- exact volume and area of the union from the grid
   let f0 := ((1 : Rat) / 2, (1 : Rat) / 2, (1 : Rat) / 2)
   let inside : (Rat × Rat) → (Rat × Rat) → (Rat × Rat) → Bool := fun kx ky kz =>
@@ -202,5 +217,39 @@ def judge (bs : List Box) (tris : List (P3 × P3 × P3)) (onGrid : Bool) : Verdi
     | none => acc
     | some r => some (r && acc.getD true)) none
   { tri := tri, wind := w.getD false, vol := vol, degenerate := w.isNone, samples := cx.length * cy.length * cz.length }
+
+def judge (bs : List Box) (tris : List (P3 × P3 × P3)) (onGrid : Bool) : Verdict :=
+  judgeWith bs (splits bs 0) (splits bs 1) (splits bs 2) tris onGrid
+
+/-! ### histories with removals: the set as kept cells of the full grid, and its essential planes
+
+`sem` is the point set of the history at GENERIC points (boxes added minus boxes removed, in order —
+`M3d.RectSet.Hist.sem`); the set `RectSet` keeps is the union of the closed cells of the grid of all box
+coordinates whose centre is in `sem`. -/
+
+def midOf (c : Rat × Rat) : Rat := (c.1 + c.2) / 2
+
+/-- the cells of the full grid `fx fy fz` (all box coordinates of the history) that the set keeps -/
+def keptCells (sem : P3 → Bool) (fx fy fz : List Rat) : List Box :=
+  (cellsOf fz).flatMap fun kz => (cellsOf fy).flatMap fun ky => (cellsOf fx).filterMap fun kx =>
+    if sem (midOf kx, midOf ky, midOf kz) then some { lo := (kx.1, ky.1, kz.1), hi := (kx.2, ky.2, kz.2) } else none
+
+/-- the coordinates of axis `k` whose plane separates a kept cell from a cell that is not kept (or from the outside):
+the planes in which the boundary of the set has a face -/
+def essentialSplits (sem : P3 → Bool) (fx fy fz : List Rat) (k : Nat) : List Rat :=
+  let inR : List Rat → Rat → Bool := fun f v => match f.head?, f.getLast? with
+    | some a, some z => decide (a < v) && decide (v < z)
+    | _, _ => false
+  let m : Rat → Rat → Rat → Bool := fun x y z => inR fx x && inR fy y && inR fz z && sem (x, y, z)
+  let pad : List Rat → List Rat := fun f => padded f 1
+  let own := if k == 0 then fx else if k == 1 then fy else fz
+  let o1 := if k == 0 then fy else fx
+  let o2 := if k == 2 then fy else fz
+  let at3 : Rat → Rat → Rat → Bool := fun v a b => if k == 0 then m v a b else if k == 1 then m a v b else m a b v
+  let pairs := (cellsOf (pad own)).zip ((cellsOf (pad own)).drop 1)
+  pairs.filterMap fun p =>
+    if (cellsOf o2).any fun c2 => (cellsOf o1).any fun c1 =>
+        at3 (midOf p.1) (midOf c1) (midOf c2) != at3 (midOf p.2) (midOf c1) (midOf c2)
+    then some p.1.2 else none
 
 end M3d.RectSpec
